@@ -21,4 +21,5 @@ var extraCmds = map[string]func([]string){
 	"scale":  records.ScaleMain,
 	"output": records.OutputMain,
 	"api":    records.ApiMain,
+	"osstop": records.OsstopMain,
 }
